@@ -27,7 +27,7 @@ def zeroVal (env : Env) : Nat → Ty → Val
     | .eitherRef t => Val.ctor "L" (zeroVal env fuel t)
     | .refT t => zeroVal env fuel t
     | .prim p => Prim.zero p
-    | .vmStack _ | .dictE _ _ | .dict _ _ | .chain _ => .nil
+    | .vmStack _ | .dictE _ _ | .dict _ _ | .chain _ | .highload => .nil
     | .encErr _ | .opaque _ => .nil
 where zeroFields (env : Env) : Nat → Fields → Val
   | 0, _ => .nil
@@ -247,6 +247,13 @@ def decode (env : Env) : Nat → Ty → Slice → Outcome (Val × Slice)
         pure (.cons x rest, s2)
       | .err _ => pure (.cons x .nil, s1)
       | .panic p => .panic p
+    | .highload => do
+      let (d, s') ← decode env fuel (.dictE (.uint 16) (.prim .any)) s
+      match dictParts d with
+      | some (_, vs) => (match hlFromValues vs with
+        | some r => pure (r, s')
+        | none => .err "failed to read msg")
+      | none => .err "bad dictionary"
     | .encErr _ => .err "unmodelled"
     | .opaque _ => .err "unmodelled"
 
